@@ -2,7 +2,8 @@
    request:  run <rows> <cols> <hex stream> <cut,cut,...>
    answer:   one snapshot per cut offset (state after the first <cut> bytes), joined by '#':
              err r c top bot|cp,cp,...;cp,...;...      (one ';'-separated group per screen row)
-   request:  wid <cp> -> width *)
+   request:  wid <cp> -> width
+   request:  wfix <h> <cols> <old top> <old left> <cursor row> <buffer lines> <cursor column> -> <top> <left>  (DrawDefs.wfix, fix_left) *)
 let pr = Printf.printf
 let snapshot b t =
   Buffer.add_string b (Printf.sprintf "%d %d %d %d %d|" (int_of_nat t.t_err) (int_of_nat t.t_r) (int_of_nat t.t_c)
@@ -39,6 +40,11 @@ let () =
        | ["run"; r; c; hex; cuts] ->
          do_run (int_of_string r) (int_of_string c) hex
            (List.map int_of_string (List.filter (fun w -> w <> "") (String.split_on_char ',' cuts)))
+       | ["wfix"; h; cols; ptop; pleft; xrow; len; pos] ->
+         (* model of vi_wfix and of the xleft rule: new top and left after a motion *)
+         let z s = z_of_int (int_of_string s) in
+         let (t, _) = wfix (z ptop) (z xrow) (z h) (z len) in
+         pr "%d %d\n" (int_of_z t) (int_of_z (fix_left (z pleft) (z pos) (z cols)))
        | ["wid"; c] -> pr "%d\n" (int_of_nat (cp_wid (n_of_int (int_of_string c))))
        | _ -> pr "error bad request\n");
       flush stdout)
